@@ -37,10 +37,10 @@ def obj_spec(kind, i, extra=None):
         incs = [{"id": j, "in": [1], "straight": [2]} for j in extra["incoming_ids"]]
         return {"id": i, "incomings": incs}
     if kind == "static":
-        return {"id": i, "role": "static", "shape": {"t": "rect", "l": 2, "w": 1},
+        return {"id": i, "role": "static", "shape": {"t": "rect", "l": 2, "w": 9},  # reaches over the neighbouring lanes
                 "init": {"t": 0, "pos": [1.0, 4.0 * i], "ori": 0.0}}
     if kind == "dynamic":
-        return {"id": i, "role": "dynamic", "shape": {"t": "rect", "l": 2, "w": 1},
+        return {"id": i, "role": "dynamic", "shape": {"t": "rect", "l": 2, "w": 9},
                 "init": {"t": 0, "pos": [1.0, 4.0 * i], "ori": 0.0, "vel": 1.0},
                 "pred": {"kind": "traj", "states": [{"cls": "ks", "t": 1, "pos": [2.0, 4.0 * i], "ori": 0.0, "vel": 1.0}]}}
     if kind == "env":
@@ -196,7 +196,7 @@ class Run(RunBase):
             all_ids = [i for i, _, _ in net_ids(u["nets"][op["key"]])]
             new = set(all_ids)
             return not (new & set(m.ids_of_kind(*OBST_KINDS)))
-        if k == "peek":
+        if k in ("peek", "assign"):
             return True
         if k == "remove_intruder":
             ids = op["ids"]
@@ -535,6 +535,17 @@ class Run(RunBase):
             if got == prev:
                 self.m = pre
                 return {"raised": type(e).__name__}
+            if form == "list" and kind == "obstacle" and got != post:
+                # a list removal is a sequence of single removals: it may stop after a prefix of the list
+                part = pre.clone()
+                for i in ids:
+                    if part.contained.get(i, (None,))[0] in OBST_KINDS:
+                        part.remove_id(i)
+                    if got == [list(t) for t in sorted(part.abstract(), key=lambda t: (t[0], t[1], t[2] or 0))]:
+                        self.m = part
+                        self.probe("list-removal-stopped-after-a-prefix")
+                        self._check_state(op, "state-after-partial-remove")
+                        return {"raised": type(e).__name__}
             if got != post:
                 raise Violation(f"C09/torn-removal/{_tag(op)}",
                                 f"{op} raised {type(e).__name__}: {e} and left the scenario in neither the previous "
@@ -566,6 +577,17 @@ class Run(RunBase):
         self.probe("list-removal-interrupted" if raised and gone else "list-removal-with-foreign-object")
         self._check_state(op, "state-after-interrupted-remove")
         return {"raised": raised, "gone": gone}
+
+    def _op_assign(self, op):
+        """A by-stander: the obstacles are assigned to the lanelets (registries and assignment tables are filled).
+        Which ids are in use is not touched by that - and later removals have to cope with assigned obstacles."""
+        try:
+            self.sc.assign_obstacles_to_lanelets()
+            self.probe("obstacles-assigned-to-lanelets")
+        except Exception as e:  # noqa   (the assignment itself is C07's business)
+            self.probe("assign-raised:" + type(e).__name__)
+        self._check_state(op, "state-after-assign")
+        return "ok"
 
     def _op_peek(self, op):
         """Ordinary caller code: ask for the lists of contained objects and edit the lists it was handed (they are the
@@ -712,6 +734,9 @@ def _remover(rng, run):
         if r < 0.06:
             yield {"op": "peek", "k": rng.randrange(7)}
             continue
+        if r > 0.9:
+            yield {"op": "assign"}
+            continue
         if r < 0.2 and kind != "obstacle":
             cands = [k for k, o in sorted(run.universe["objects"].items()) if o["kind"] == kind and
                      not any(t[0] in m.contained for t in ids_of(kind, o["spec"]))]
@@ -774,7 +799,8 @@ class C09(Property):
                        "lanelet-removal-leaves-shared-sign", "replace-overlapping-ids", "restart-pickle",
                        "restart-deepcopy", "remove-non-contained-obstacle", "gen-between-gen-and-add", "erase-network",
                        "restart-file", "object-with-internally-repeated-id", "replace-with-internally-repeated-id", "lanelet-with-reference-to-foreign-id-removed",
-                       "list-removal-interrupted", "caller-edits-returned-lists"]
+                       "list-removal-interrupted", "caller-edits-returned-lists",
+                       "obstacles-assigned-to-lanelets"]
     assumptions = [
         "interleaving granularity is one public call (the library has no threads)",
         "list-form adds are sequential adds: the accepted prefix before a refused element stays (documented relaxation)",
